@@ -1,9 +1,10 @@
 (* extraction of the C12 executable models (iterators, hull, LintGroup::lint with its chunk cache; since phase 3
    also C02's lexer + Document::parse passes as kind classes: run_doc / run_raw of Model/C12Doc.v; phase 5: run_rules of
    Model/C12Windows.v = UnclosedQuotes + the guarded windows of the generated table);
+   phase 6: run_comma of Model/C12Comma.v = CommaFixes with the arm table read from the source;
    ExtrOcamlBasic only *)
 Require Extraction.
 Require Import ExtrOcamlBasic.
-Require Import Base Overlap ParaSplit C12Doc C12Windows.
+Require Import Base Overlap ParaSplit C12Doc C12Windows C12Comma.
 Extraction Language OCaml.
-Extraction "../ocaml/gen/c12_model.ml" run_iter run_group run_long run_doc run_raw run_rules.
+Extraction "../ocaml/gen/c12_model.ml" run_iter run_group run_long run_doc run_raw run_rules run_comma.
